@@ -312,11 +312,16 @@ def run_changes(state: str, changes: list) -> dict:
             tw.world.op('u', 'op', coro_fn, record=False)
             tw.world.run_default_until_idle()
 
+        outcome = {}
+
         async def guarded(fn):
+            outcome['ok'] = False
             try:
                 await fn()
             except Exception:
                 pass
+            else:
+                outcome['ok'] = True
         if state == 'PAUSED':
             run_op(lambda: guarded(lambda: tw.client.transfers.pause(up)))
         elif state == 'ABORTED-Requested':
@@ -362,12 +367,12 @@ def run_changes(state: str, changes: list) -> dict:
                 run_op(lambda: tw.client.shares.scan())
             elif ch == 'abort':
                 run_op(lambda: guarded(lambda: tw.client.transfers.abort(up)))
-                if up.state.VALUE == TransferState.State.ABORTED and up.abort_reason == 'Requested':
+                if outcome.get('ok'):
                     requested_abort = True
             elif ch == 'queue':
-                before = up.state.VALUE
                 run_op(lambda: guarded(lambda: tw.client.transfers.queue(up)))
-                if before == TransferState.State.ABORTED and up.state.VALUE != TransferState.State.ABORTED:
+                if outcome.get('ok'):
+                    # the user took the abort back (whatever the library decides about the upload afterwards)
                     requested_abort = False
             # the settings poll (1 s) and the management cycle it triggers
             tw.world.run_default_for(2.5)
